@@ -321,6 +321,10 @@ class Exec:
             path = form[1]
             segs = split_path(path)
             tyname, var = enum_variant(self.enums, segs)
+            if tyname is None and lhs_ty and segs:
+                lt = split_path(lhs_ty)
+                if lt and lt[-1] in self.enums and segs[-1] in self.enums[lt[-1]]:
+                    tyname, var = lt[-1], segs[-1]        # bare variant path (`_2 = NegOverflow;`): the enum is the lhs type
             if tyname is not None:
                 st.heap[oid]['discr'] = BV(z3.BitVecVal(self.enums[tyname].index(var), 64), True)
                 for i, v in enumerate(vals): st.heap[oid][('f', var, i)] = v
